@@ -222,6 +222,34 @@ class ConstantPropagationTransformer(Transformer):
 
         return o._rebuild(bounds=new_bounds, body=new_body)
 
+    def visit_MultiConditional(self, o, **kwargs):
+        constants_map = kwargs.get('constants_map', {})
+        mapper = ConstantPropagationMapper()
+
+        new_expr = mapper(o.expr, constants_map=constants_map)
+
+        # Every branch starts from the incoming constants ...
+        branch_maps = []
+        new_bodies = ()
+        for body in o.bodies:
+            with dict_override(kwargs, {'constants_map': deepcopy(constants_map)}):
+                new_bodies += (self.visit(body, **kwargs),)
+                branch_maps.append(kwargs['constants_map'])
+        with dict_override(kwargs, {'constants_map': deepcopy(constants_map)}):
+            new_else_body = self.visit(o.else_body, **kwargs)
+            branch_maps.append(kwargs['constants_map'])
+
+        # ... and only entries on which all branches (incl. the default or
+        # fall-through path) agree survive the construct
+        merged_constants_map = {
+            key: value for key, value in branch_maps[0].items()
+            if all(key in other and other[key] == value for other in branch_maps[1:])
+        }
+        constants_map.clear()
+        constants_map.update(merged_constants_map)
+
+        return o._rebuild(expr=new_expr, bodies=new_bodies, else_body=new_else_body)
+
     def generate_declarations_map(self, routine):
         """Build the initial constant map from declaration-time initializers."""
 
